@@ -26,7 +26,7 @@ def run(ctx):
         other_stream = (it % 10 == 9)
         table = tables.rand_table(rng, exprs, n_units, p_fail=0.2, dyadic=(rng.random() < 0.6), allow_other=other_stream)
         null = Fraction(rng.randrange(-16, 17), 4)
-        prov, _, _ = make_prov(I, exprs, n_units)
+        prov, _units, _ = make_prov(I, exprs, n_units)
         n_rows = len(exprs)
         X = np.arange(n_rows, dtype=float).reshape(-1, 1)
         util = tables.make_table_utility(I, table, null, mean=0)
@@ -67,6 +67,26 @@ def run(ctx):
         elif ans is not None and ("err" in ans or [Fraction(x) for x in ans["ok"]] != want):
             ctx.mismatch("model Ds.Brute.scores differs from the Shapley value by definition", case, impl=res, model=ans, spec=[str(x) for x in want],
                          failing_input=False, broken="theorem C03_main / corr:Ds.Brute.scores")
+        elif it % 2 == 0 and n_units <= 5:
+            # the same Provenance OBJECT is edited in place (a formula of a different shape that fits the stored width) and scored again:
+            # v(S) must be evaluated on the rows whose CURRENT formula is true
+            i = rng.randrange(n_rows)
+            e2 = gen.rand_expr_flat(rng, n_units, 2, 3, 2, p_zero=0.2)
+            exprs2 = list(exprs)
+            exprs2[i] = e2
+            try:
+                prov[i] = gen.build_expr(I["provenance"], _units, e2)
+                table2 = tables.rand_table(rng, exprs2, n_units, p_fail=0.1)
+                util2 = tables.make_table_utility(I, table2, null, mean=0)
+                imp2 = I["imp"].ShapleyImportance(method="bruteforce", utility=util2)
+                res2 = list(np.asarray(imp2.fit(X, np.zeros(n_rows, dtype=int), provenance=prov).score(np.zeros((1, 1)), np.zeros(1, dtype=int)), dtype=float))
+            except Exception as e:  # noqa
+                res2 = exc_name(e) + ": " + repr(e)
+            want2 = spec.shapley(n_units, lambda S: tables.value_of(table2, tables.rows_present(exprs2, [1 if u in S else 0 for u in range(n_units)]), null))
+            ctx.dist["rescored_after_in_place_edit"] += 1
+            if isinstance(res2, str) or not ctx.vec_close(res2, want2, scale):
+                ctx.mismatch("after an in-place edit of the provenance, bruteforce scores are not the Shapley value for the edited formulas",
+                             dict(case, edit=dict(row=i, expr=e2), table2=tables.table_json(table2)), impl=res2, spec=[str(x) for x in want2])
         if ctx.elapsed() > (100 if q else 900):
             break
     return ctx.finish("proof", "C03_main: for every game the modelled accumulation with factor_0/factor_1 over all 2^n assignments equals the textbook Shapley sum; failures "
